@@ -115,6 +115,31 @@ def feeOf (L : Ledger) (tx : Tx) : Int :=
   | some s => s - sumOuts tx
   | none => 0
 
+/-! ### CRCAppropriation (core/transaction/crcappropriationtransaction.go)
+
+  The one transaction type that carries inputs but neither signatures nor a fee: its `SpecialContextCheck`
+  ends the context check, so the ledger's double-spend test *before* it is the only thing that keeps it from
+  spending an outpoint again. The harness marks the kind in the specification (`ca`); the model keeps it as
+  `.other` with the payload datum `"ca"`. -/
+def isApprop (tx : Tx) : Bool := tx.kind == .other && tx.pdatas == ["ca"]
+
+/-- `DefaultChecker.ContextCheck` of a CRCAppropriation at a height from CRCommitteeStartHeight on, in the
+    order of the code: duplicate hash (ErrTxDuplicate 22011), referenced transactions known
+    (ErrTxUnknownReferredTx 22009), `IsDoubleSpend` (ErrTxDoubleSpend 22007), then the special check
+    (ErrTxPayload 22006): appropriation needed, every input from the CR assets address, Σ inputs = Σ outputs,
+    first output = the committee's appropriation amount. `0` = accepted. -/
+def ctxApprop (L : Ledger) (assets : Nat) (appr : Option Int) (tx : Tx) : Nat :=
+  if L.txs.any (·.1 == tx.id) then 22011
+  else if !(tx.ins.all fun p => L.txs.any (·.1 == p.1)) then 22009
+  else if !(tx.ins.all fun p => (L.find p).isSome) then 22007
+  else match appr with
+    | none => 22006
+    | some amt =>
+      if !(tx.ins.all fun p => match L.find p with | some e => e.addr == assets | none => false) then 22006
+      else if sumIns L tx != some (sumOuts tx) then 22006
+      else if (tx.outs.head?.map (·.value)) != some amt then 22006
+      else 0
+
 /-- `CheckBlockSanity` -/
 def blockSane (b : Block) : Bool :=
   match b.txs with
